@@ -26,15 +26,27 @@
 //!   configuration value for later clients to clone (observed group `cfg-only`).  Sequentially
 //!   each client's configuration is derived right before it is used (so: used, then modified,
 //!   then used again); with `-par` all configurations and endpoints are built first.
+//!   `<scheme> <urihost> @k new` — `Endpoint::new(ep_k.clone())`: what a generated `connect(dst)` does
+//!   when `dst` already is an `Endpoint` (audit aC15; as found, 0.13.0 replaced the caller's TLS
+//!   configuration there — fixed).  More `<transport>` flags (audit aC15): `-c2` two calls on one
+//!   channel, `-kn` every other `Endpoint` builder method called after `tls_config`, `-bal` (with
+//!   `-native`) a balanced channel over the endpoint (`Channel::balance_list` for even client
+//!   indices, `Channel::balance_channel` for odd ones).  The `Endpoint` constructor (`from_shared`,
+//!   `from_str`, `TryFrom<String>`, `From<Uri>`, `Channel::from_shared`; for `auto` the `dst` type
+//!   handed to `Endpoint::new`) is rotated deterministically per case.
 //! `<ops…>` is the sequence of `ClientTlsConfig` builder calls, in order (may be empty):
 //!   `ca:<ca1|ca2|ica1|junk|broken>`  `cas:<a>+<b>`  `ta:<ca>`  `tas:<a>+<b>` (trust anchors)
 //!   `dom:<good|bad|other|ip|invalid>`  `id:<c1|c2|c1chain|brokencert|nokey>`
-//!   `h2:<0|1>` (assume_http2)  `roots` (with_enabled_roots)
+//!   `h2:<0|1>` (assume_http2)  `roots` (with_enabled_roots)  `kl` (use_key_log)
 //! or the single token `notls` (`Endpoint::from_shared`, no `tls_config` call) or `auto`
 //! (`Endpoint::new`, the entry point generated clients use).
 //! `<alpn>`: `h2` = tonic's own `Server::tls_config`; `plain` = tonic server without TLS;
 //! `none|http11|h2first|h2last|h2only` = hand-rolled tokio-rustls acceptor with that ALPN list.
-//! `<srvops>`: `-` or `+`-joined `ServerTlsConfig` calls after `identity`: `ca:<ca>` `opt:<0|1>` `ico:<0|1>`.
+//! `<srvops>`: `-` or `+`-joined `ServerTlsConfig` calls after `identity`: `ca:<ca>` `opt:<0|1>` `ico:<0|1>` `kl`
+//!   (use_key_log), and among them `Server`-level builder calls around `Server::tls_config`: `pre` (an
+//!   earlier `tls_config` with a configuration WITHOUT client authentication, which the case's own call
+//!   must replace), `lay0` / `lay` (`Server::layer` before / after `tls_config`; `lay` is a tonic
+//!   interceptor layer, so the handler sits behind an `InterceptedService`).
 //!
 //! Also `srvcfg <op>+<op>…`: `Server::builder().tls_config(..)` alone (`ok|err:<class>|panic`).
 //!
@@ -321,6 +333,9 @@ struct ClientSpec {
     cfg_only: bool,
     /// bare `@k`: no `tls_config` call of its own
     same: bool,
+    /// `@k new`: `Endpoint::new(ep_k.clone())` — what a generated `connect(dst)` does with a `dst`
+    /// that already is an `Endpoint`
+    renew: bool,
     /// everything this client's configuration was told, syntactically (its ancestors' calls, then
     /// its own) — used only to know which identity the client is meant to present
     told: Vec<String>,
@@ -345,12 +360,19 @@ struct Case {
     native: bool,
     /// `-cto`: a connect_timeout is set (the connector is wrapped in a TimeoutConnector)
     cto: bool,
+    /// `-c2`: two calls, one after the other, on the same channel (= the same connection)
+    calls2: bool,
+    /// `-bal` (with `-native`): the channel is a balanced one over this single endpoint —
+    /// `Channel::balance_list` (even client index) / `Channel::balance_channel` (odd)
+    bal: bool,
+    /// `-kn`: every other `Endpoint` builder method is called after `tls_config`
+    knobs: bool,
 }
 
 impl ClientSpec {
     /// does this client define a `ClientTlsConfig` value of its own?
     fn has_cfg(&self) -> bool {
-        !self.same && !(self.ops.len() == 1 && (self.ops[0] == "notls" || self.ops[0] == "auto"))
+        !self.same && !self.renew && !(self.ops.len() == 1 && (self.ops[0] == "notls" || self.ops[0] == "auto"))
     }
 }
 
@@ -390,6 +412,10 @@ fn parse(case: &str) -> Option<Case> {
             rest = &rest[1..];
         }
         let same = ep_ref.is_some() && rest.is_empty();
+        let renew = ep_ref.is_some() && rest.len() == 1 && rest[0] == "new";
+        if renew {
+            rest = &rest[1..];
+        }
         if let Some(j) = rest.first().and_then(|x| x.strip_prefix('^')) {
             let j: usize = j.parse().ok()?;
             // a clone of an earlier client's configuration: that client must have defined one
@@ -406,11 +432,11 @@ fn parse(case: &str) -> Option<Case> {
         }
         let mut told: Vec<String> = match (cfg_ref, ep_ref) {
             (Some(j), _) => clients[j].told.clone(),
-            (None, Some(k)) if same => clients[k].told.clone(),
+            (None, Some(k)) if same || renew => clients[k].told.clone(),
             _ => Vec::new(),
         };
         told.extend(ops.iter().cloned());
-        clients.push(ClientSpec { scheme: part[0].into(), urihost: part[1].into(), ops, ep_ref, cfg_ref, cfg_only, same, told });
+        clients.push(ClientSpec { scheme: part[0].into(), urihost: part[1].into(), ops, ep_ref, cfg_ref, cfg_only, same, renew, told });
     }
     let mut tr = t[semi + 4].split('-');
     let base = tr.next()?.to_string();
@@ -418,6 +444,7 @@ fn parse(case: &str) -> Option<Case> {
         return None;
     }
     let (mut lazy, mut twice, mut par, mut native, mut cto) = (false, false, false, false, false);
+    let (mut calls2, mut bal, mut knobs) = (false, false, false);
     for f in tr {
         match f {
             "lazy" => lazy = true,
@@ -425,11 +452,17 @@ fn parse(case: &str) -> Option<Case> {
             "par" => par = true,
             "native" => native = true,
             "cto" => cto = true,
+            "c2" => calls2 = true,
+            "bal" => bal = true,
+            "kn" => knobs = true,
             _ => return None,
         }
     }
     // `-native`: every client talks to a recording proxy of its own, whose port is part of its URI
     if native && clients.iter().any(|c| (!c.cfg_only && c.urihost != "ip") || c.ep_ref.is_some()) {
+        return None;
+    }
+    if bal && !native {
         return None;
     }
     Some(Case {
@@ -443,6 +476,9 @@ fn parse(case: &str) -> Option<Case> {
         par,
         native,
         cto,
+        calls2,
+        bal,
+        knobs,
     })
 }
 
@@ -612,6 +648,9 @@ fn apply_client_ops(base: ClientTlsConfig, ops: &[String]) -> Option<ClientTlsCo
             cfg = cfg.assume_http2(b == "1");
         } else if op == "roots" {
             cfg = cfg.with_enabled_roots();
+        } else if op == "kl" {
+            // SSLKEYLOGFILE is not set in the harness' environment: the key log writes nothing
+            cfg = cfg.use_key_log();
         } else if let Some((b, _)) = SIDE.get() {
             // methods that exist only with the root-store features compiled in
             cfg = (b.ext_op)(cfg, op)?;
@@ -883,6 +922,9 @@ struct Mode {
     twice: bool,
     native: bool,
     cto: bool,
+    calls2: bool,
+    bal: bool,
+    knobs: bool,
 }
 
 /// A loopback TCP proxy in front of the case's server, for the runs that use tonic's own
@@ -966,7 +1008,7 @@ struct Prepared {
 /// Build client `idx`'s configuration and endpoint through the public API, from the values the
 /// earlier clients left in `env`, and leave its own there.
 async fn prepare_client<IO: Transport>(idx: usize, spec: &ClientSpec, env: &mut Env, dial: Dialer<IO>, mode: Mode) -> Prepared {
-    let Mode { native, cto, .. } = mode;
+    let Mode { native, cto, knobs, .. } = mode;
     let log = Arc::new(Mutex::new(TapLog::default()));
     let dials = Arc::new(AtomicUsize::new(0));
     let mut out = Prepared { log: log.clone(), dials: dials.clone(), cfg_state: "ok".into(), ep: None, bad: None, cfg_only: spec.cfg_only };
@@ -1009,6 +1051,8 @@ async fn prepare_client<IO: Transport>(idx: usize, spec: &ClientSpec, env: &mut 
                 return out;
             }
             Some(Err(class)) => Err(class), // `ep_k?` already failed
+            // generated `connect(dst)` with `dst` = an Endpoint value: `Endpoint::new(ep_k.clone())`
+            Some(Ok(e)) if spec.renew => Endpoint::new(e).map_err(|e| classify_cfg_err(&e)),
             Some(Ok(e)) => match &cfg {
                 None => Ok(e),
                 Some(t) => e.tls_config(t.clone()).map_err(|e| classify_cfg_err(&e)),
@@ -1038,17 +1082,36 @@ async fn prepare_client<IO: Transport>(idx: usize, spec: &ClientSpec, env: &mut 
                 Some(o) => ep.origin(o.parse().unwrap()),
                 None => ep,
             };
-            if cto {
-                ep.connect_timeout(Duration::from_secs(10))
+            let ep = if cto { ep.connect_timeout(Duration::from_secs(10)) } else { ep };
+            if knobs {
+                all_other_knobs(ep)
             } else {
                 ep
             }
         };
+        // the constructors are rotated (deterministically per case): they all end in the same
+        // private `Endpoint::new_uri`, and which one a caller picked must not matter
+        let which = idx + spec.ops.len() + spec.urihost.len();
         if spec.ops.len() == 1 && spec.ops[0] == "auto" {
-            // the entry point generated `connect` functions use
-            Endpoint::new(uri).map(with_origin).map_err(|e| classify_cfg_err(&e))
+            // the entry point generated `connect` functions use, with the `dst` types they are
+            // called with: a String, a `Uri`, an unconfigured `Endpoint`
+            match which % 3 {
+                0 => Endpoint::new(uri),
+                1 => Endpoint::new(uri.parse::<http::Uri>().expect("uri")),
+                _ => Endpoint::new(Endpoint::from_shared(uri).expect("uri")),
+            }
+            .map(with_origin)
+            .map_err(|e| classify_cfg_err(&e))
         } else {
-            let ep = match Endpoint::from_shared(uri) {
+            use std::str::FromStr;
+            let made: Result<Endpoint, ()> = match which % 5 {
+                0 => Endpoint::from_shared(uri).map_err(|_| ()),
+                1 => Endpoint::from_str(&uri).map_err(|_| ()),
+                2 => Endpoint::try_from(uri).map_err(|_| ()),
+                3 => uri.parse::<http::Uri>().map(Endpoint::from).map_err(|_| ()),
+                _ => tonic::transport::Channel::from_shared(uri).map_err(|_| ()),
+            };
+            let ep = match made {
                 Ok(e) => e,
                 Err(_) => {
                     env.eps.push(None);
@@ -1071,10 +1134,45 @@ async fn prepare_client<IO: Transport>(idx: usize, spec: &ClientSpec, env: &mut 
     out
 }
 
+/// `-kn`: every `Endpoint` builder method that is not about TLS, called AFTER `tls_config`: none of
+/// them may lose or change the TLS connector the endpoint carries.
+fn all_other_knobs(ep: Endpoint) -> Endpoint {
+    ep.user_agent("verif-c15/1.0")
+        .expect("user agent")
+        .timeout(Duration::from_secs(60))
+        .concurrency_limit(16)
+        .rate_limit(1000, Duration::from_millis(10))
+        .initial_stream_window_size(1u32 << 20)
+        .initial_connection_window_size(1u32 << 21)
+        .buffer_size(64usize)
+        .tcp_keepalive(Some(Duration::from_secs(30)))
+        .tcp_nodelay(false)
+        .http2_keep_alive_interval(Duration::from_secs(60))
+        .keep_alive_timeout(Duration::from_secs(20))
+        .keep_alive_while_idle(true)
+        .http2_adaptive_window(true)
+        .http2_max_header_list_size(1u32 << 16)
+        .local_address(None)
+        .executor(TokioExec)
+}
+
+#[derive(Clone)]
+struct TokioExec;
+impl<F> hyper::rt::Executor<F> for TokioExec
+where
+    F: Future + Send + 'static,
+    F::Output: Send + 'static,
+{
+    fn execute(&self, fut: F) {
+        tokio::spawn(fut);
+    }
+}
+
 /// One prepared client: connect through a connector that dials the case's server and taps the
 /// bytes, make one unary call (twice over with `-x2`).
 async fn connect_client<IO: Transport>(idx: usize, prep: Prepared, dial: Dialer<IO>, mode: Mode) -> ClientOut {
-    let Mode { lazy, twice, native, .. } = mode;
+    let Mode { lazy, twice, native, calls2, bal, .. } = mode;
+    let mut bal_keep = Vec::new();
     let Prepared { log, dials, cfg_state, ep, bad, .. } = prep;
     if let Some(why) = bad {
         return ClientOut { cfg_state: "ok".into(), res: format!("fail:{}", why), plain: false, dialed: false };
@@ -1104,6 +1202,14 @@ async fn connect_client<IO: Transport>(idx: usize, prep: Prepared, dial: Dialer<
                 })
             };
             let ch = match (native, lazy) {
+                // balanced channels: the endpoint's own `http_connector()`, connected lazily
+                (true, _) if bal && idx % 2 == 0 => Ok(tonic::transport::Channel::balance_list(std::iter::once(ep.clone()))),
+                (true, _) if bal => {
+                    let (ch, tx) = tonic::transport::Channel::balance_channel::<usize>(4);
+                    let _ = tx.send(tonic::transport::channel::Change::Insert(7, ep.clone())).await;
+                    bal_keep.push(tx);
+                    Ok(ch)
+                }
                 (false, true) => Ok(ep.connect_with_connector_lazy(connector)),
                 (false, false) => ep.connect_with_connector(connector).await,
                 // tonic's own HttpConnector, through the recording proxy
@@ -1118,7 +1224,15 @@ async fn connect_client<IO: Transport>(idx: usize, prep: Prepared, dial: Dialer<
                 Ok(ch) => {
                     let mut grpc = tonic::client::Grpc::new(ch);
                     let first = one_call(&mut grpc, idx, &wire).await;
-                    if lazy && first != "ok" {
+                    if calls2 && first == "ok" {
+                        // a second request on the same connection: served the same way
+                        let again = one_call(&mut grpc, idx, &wire).await;
+                        if again != "ok" {
+                            format!("fail:second-call-differs<{}>", canonical_res(&again))
+                        } else {
+                            first
+                        }
+                    } else if (lazy || bal) && first != "ok" {
                         // a lazily connected channel dials again for the next call: it must fail
                         // the same way (no fallback on retry)
                         let second = one_call(&mut grpc, idx, &wire).await;
@@ -1186,7 +1300,12 @@ async fn run_case<IO: Transport>(c: Case) -> String {
     let server_task: tokio::task::JoinHandle<Result<(), String>> = match c.alpn.as_str() {
         "h2" => {
             let id = Identity::from_pem(cert_pem(&c.servercert).unwrap_or(""), key_pem(&c.servercert).unwrap_or(""));
-            let mut tls = ServerTlsConfig::new().identity(id);
+            let mut tls = ServerTlsConfig::new().identity(id.clone());
+            // `Server`-level builder calls around `tls_config`: `pre` = an earlier `tls_config` call
+            // (same identity, NO client authentication) that the case's own call must replace;
+            // `lay0` / `lay` = `Server::layer` before / after `tls_config` (`lay` with a tonic
+            // interceptor layer, so the handler sits behind an `InterceptedService`)
+            let (mut pre, mut lay0, mut lay) = (false, false, false);
             for op in &c.sops {
                 if let Some(n) = op.strip_prefix("ca:") {
                     tls = tls.client_ca_root(Certificate::from_pem(match cert_pem(n) {
@@ -1197,18 +1316,54 @@ async fn run_case<IO: Transport>(c: Case) -> String {
                     tls = tls.client_auth_optional(b == "1");
                 } else if let Some(b) = op.strip_prefix("ico:") {
                     tls = tls.ignore_client_order(b == "1");
+                } else if op == "kl" {
+                    tls = tls.use_key_log();
+                } else if op == "pre" {
+                    pre = true;
+                } else if op == "lay0" {
+                    lay0 = true;
+                } else if op == "lay" {
+                    lay = true;
                 } else {
                     return "bad-case".into();
                 }
             }
-            let mut b = match Server::builder().tls_config(tls) {
-                Ok(b) => b,
-                // tonic refused the server's TLS configuration (e.g. a client CA bundle without a
-                // usable certificate): no server, nobody is served
-                Err(_) => return vec!["server-config-unusable"; c.clients.len()].join(" | "),
-            };
-            let router = b.add_service(svc);
-            tokio::spawn(async move { router.serve_with_incoming_shutdown(rx_stream(rx), stop).await.map_err(|e| e.to_string()) })
+            let unusable = || vec!["server-config-unusable"; c.clients.len()].join(" | ");
+            let mut b0 = Server::builder();
+            if pre {
+                b0 = match b0.tls_config(ServerTlsConfig::new().identity(id).client_auth_optional(true)) {
+                    Ok(b) => b,
+                    Err(_) => return "harness-error:pre-tls-config".into(),
+                };
+            }
+            // tonic refusing the server's TLS configuration (e.g. a client CA bundle without a
+            // usable certificate) = no server, nobody is served
+            macro_rules! serve {
+                ($b:expr) => {{
+                    let mut b = $b;
+                    let router = b.add_service(svc);
+                    tokio::spawn(async move { router.serve_with_incoming_shutdown(rx_stream(rx), stop).await.map_err(|e| e.to_string()) })
+                }};
+            }
+            let pass = |r: tonic::Request<()>| -> Result<tonic::Request<()>, tonic::Status> { Ok(r) };
+            match (lay0, lay) {
+                (false, false) => match b0.tls_config(tls) {
+                    Ok(b) => serve!(b),
+                    Err(_) => return unusable(),
+                },
+                (true, false) => match b0.layer(tower::layer::util::Identity::new()).tls_config(tls) {
+                    Ok(b) => serve!(b),
+                    Err(_) => return unusable(),
+                },
+                (false, true) => match b0.tls_config(tls) {
+                    Ok(b) => serve!(b.layer(tonic::service::InterceptorLayer::new(pass))),
+                    Err(_) => return unusable(),
+                },
+                (true, true) => match b0.layer(tower::layer::util::Identity::new()).tls_config(tls) {
+                    Ok(b) => serve!(b.layer(tonic::service::InterceptorLayer::new(pass))),
+                    Err(_) => return unusable(),
+                },
+            }
         }
         "plain" => {
             // a plaintext HTTP/2 server: anything a client sends in the clear would be served
@@ -1241,7 +1396,7 @@ async fn run_case<IO: Transport>(c: Case) -> String {
     };
 
     // ---- clients, one after the other or all at once, against the one server
-    let mode = Mode { lazy: c.lazy, twice: c.twice, native: c.native, cto: c.cto };
+    let mode = Mode { lazy: c.lazy, twice: c.twice, native: c.native, cto: c.cto, calls2: c.calls2, bal: c.bal, knobs: c.knobs };
     let mut outs: Vec<Option<ClientOut>> = Vec::new();
     let mut env = Env::default();
     if c.par {
@@ -1330,7 +1485,7 @@ fn canonical_res(res: &str) -> String {
         return res.to_string();
     };
     let c = match class {
-        x if x.starts_with("retry-differs") || x.starts_with("second-connection-differs") => x,
+        x if x.starts_with("retry-differs") || x.starts_with("second-connection-differs") || x.starts_with("second-call-differs") => x,
         "config" | "https-without-tls" | "alpn-alert" | "h2-not-negotiated" | "wrong-reply"
         | "server-cert:unknown-issuer" | "server-cert:name-mismatch" => class,
         x if x.starts_with("server-cert:") => "server-cert:other",
@@ -1424,6 +1579,8 @@ fn srvcfg(ops: &str) -> String {
             tls = tls.client_auth_optional(b == "1");
         } else if let Some(b) = op.strip_prefix("ico:") {
             tls = tls.ignore_client_order(b == "1");
+        } else if op == "kl" {
+            tls = tls.use_key_log();
         } else {
             return "bad-case".into();
         }
@@ -1631,6 +1788,18 @@ const CORPUS: &[&str] = &[
     "tlsf nw empty https good auto ; s2good h2 - tcp",
     "tlsf nw ca2 https ip auto ; s1ip h2 - tcp-native",
     "tlsf nw ca1 https good notls ; s2good h2 - tcp",
+    // fixed: Endpoint::new(<configured Endpoint>) (generated `connect(endpoint)`) replaced the caller's
+    // TLS configuration by the default one (0.13.0).  First line = the Lean witness
+    // C15_generated_client_keeps_caller_configuration_asis_fails: trusts CA 1 only, connects to a CA-2 server
+    "tlsf n ca2 https good ca:ca1 | https good @0 new ; s2good h2 - tcp",
+    "tlsf nw ca1 https good ca:ca1 | https good @0 new ; s2good h2 - tcp",
+    "tlsf n ca1 https bad ca:ca1 dom:good | https bad @0 new ; s1good h2 - tcp",
+    "tlsf n ca1 https good ca:ca1 dom:bad | https good @0 new ; s1good h2 - tcp",
+    "tlsf n empty https good ca:ca1 | https good @0 new ; s1good h2 - tcp",
+    "tlsf n ca1 https good ca:ca2 h2:1 | https good @0 new ; s2good none - duplex",
+    "tls https good ca:ca1 | https good @0 new ; s1good h2 - tcp",
+    "tls https good ca:ca1 id:c1 | https good @0 new ; s1good h2 ca:ca1 tcp",
+    "tls https good notls | https good @0 new | http good notls | http good @2 new ; s1good plain - tcp",
     // server configuration alone
     "tls https good ca:ca1 ; s1good h2 ca:junk tcp",
     "tls https good ca:ca1 ; s1good h2 ca:broken duplex",
@@ -2266,5 +2435,193 @@ pub fn generate(tier: &str, rng: &mut Rng) -> Vec<String> {
 
     // one ClientTlsConfig value (clones, derived configurations) across several endpoints
     shared_cases(thorough, rng, &mut out);
+
+    // dimension audit aC15: entry points, knobs and histories around the anchored code
+    audit_cases(thorough, rng, &mut out);
     out
+}
+
+/// Dimension audit (aC15).  Every dimension here must be INVISIBLE to the decision (the model
+/// predicts the outcome of the plain case) or follow the caller's configuration:
+///  * `@k new` — `Endpoint::new(<an Endpoint value>)`: generated `connect(dst)` with a configured endpoint;
+///  * `kl` — `use_key_log()` on either side, anywhere in the builder sequence;
+///  * `pre` / `lay0` / `lay` — `Server`-level builder calls around `tls_config` (an earlier, permissive
+///    `tls_config`; `Server::layer` before / after, the latter an interceptor layer in front of the handler);
+///  * `-c2` — two requests on one connection; `-kn` — all other `Endpoint` knobs after `tls_config`;
+///  * `-bal` — `Channel::balance_list` / `balance_channel` (tonic's `http_connector()` path of discover.rs).
+fn audit_cases(thorough: bool, rng: &mut Rng, out: &mut Vec<String>) {
+    // ---- Endpoint::new over endpoint values
+    const RENEW: [&str; 12] = [
+        "https N ca:CA | https N @0 new",
+        "https N ca:CA2 | https N @0 new",
+        "https N ca:CA dom:W | https N @0 new",
+        "https W ca:CA dom:N | https W @0 new",
+        "https N ca:CA h2:1 | https N @0 new",
+        "https N notls | https N @0 new",
+        "https N auto | https N @0 new | https N @1 new",
+        "http N notls | http N @0 new",
+        "https N ca:CA id:c1 | https N @0 new",
+        "https N ca:CA | https N @0 new | https N @1 ^0 dom:W | https N @2 new | https N @0",
+        "https N ca:broken | https N @0 new",
+        "cfg - ca:CA | https N notls | https N @1 new | https N @1 ^0 | https N @3 new",
+    ];
+    for servercert in ["s1good", "s1bad", "s2good"] {
+        let ca = issuer_of(servercert);
+        let other_ca = if ca == "ca1" { "ca2" } else { "ca1" };
+        let (n, w) = if servercert == "s1bad" { ("other", "good") } else { ("good", "bad") };
+        for pat in RENEW {
+            let clients = pat.replace("CA2", other_ca).replace("CA", ca).replace('N', n).replace('W', w);
+            for (alpn, sops) in [("h2", "-"), ("none", "-"), ("plain", "-"), ("h2", "ca:ca1"), ("h2last", "ca:ca1+opt:1")] {
+                let tr = if thorough { *rng.pick(&["tcp", "duplex", "duplex-lazy", "duplex-par", "tcp-x2"]) } else { *rng.pick(&["tcp", "duplex-lazy"]) };
+                out.push(format!("tls {} ; {} {} {} {}", clients, servercert, alpn, sops, tr));
+                // the builds in which the default configuration of generated clients trusts something
+                for feat in ["n", "nw"] {
+                    for store in ["ca1", "ca2", "empty"] {
+                        if !thorough && !(alpn == "h2" && sops == "-") && !rng.chance(1, 4) {
+                            continue;
+                        }
+                        out.push(format!("tlsf {} {} {} ; {} {} {} {}", feat, store, clients, servercert, alpn, sops, tr));
+                    }
+                }
+            }
+        }
+    }
+    // random programs with `Endpoint::new(ep_k.clone())` statements appended / interleaved
+    let nrenew = if thorough { 6000 } else { 300 };
+    for i in 0..nrenew {
+        let servercert = *rng.pick(&SERVER_CERTS);
+        let prog = random_program(rng, servercert);
+        let mut parts: Vec<String> = prog.split(" | ").map(|x| x.to_string()).collect();
+        for _ in 0..rng.range(1, 2) {
+            let eps: Vec<usize> = (0..parts.len()).filter(|j| !parts[*j].starts_with("cfg ")).collect();
+            let k = *rng.pick(&eps);
+            let mut t = parts[k].split(' ');
+            let (sch, host) = (t.next().unwrap_or("https").to_string(), t.next().unwrap_or("good").to_string());
+            parts.push(format!("{} {} @{} new", sch, host, k));
+        }
+        let alpn = if rng.chance(1, 20) { "plain" } else { *rng.pick(&ALPNS) };
+        let sops = *rng.pick(&["-", "-", "ca:ca1", "ca:ca1+opt:1"]);
+        let tr = *rng.pick(&["tcp", "duplex", "duplex-lazy", "duplex-par", "duplex-x2", "duplex-c2"]);
+        let line = format!("{} ; {} {} {} {}", parts.join(" | "), servercert, alpn, sops, tr);
+        match i % 3 {
+            0 => out.push(format!("tls {}", line)),
+            1 => out.push(format!("tlsf n {} {}", rng.pick(&["ca1", "ca2", "ca1+ca2", "empty"]), line)),
+            _ => out.push(format!("tlsf nw {} {}", rng.pick(&["ca1", "ca2", "empty"]), line)),
+        }
+    }
+
+    // ---- use_key_log on either side: the property's matrix with `kl` somewhere in both sequences
+    let mut m = Vec::new();
+    matrix("duplex", &mut m);
+    matrix("tcp", &mut m);
+    for line in m {
+        if !thorough && !rng.chance(1, 8) {
+            continue;
+        }
+        let t: Vec<&str> = line.split(' ').collect();
+        let semi = t.iter().position(|x| *x == ";").unwrap_or(3);
+        let mut toks: Vec<String> = t.iter().map(|x| x.to_string()).collect();
+        let sops = toks[semi + 3].clone();
+        toks[semi + 3] = match (sops.as_str(), rng.below(3)) {
+            ("-", _) => "kl".to_string(),
+            (s, 0) => format!("kl+{}", s),
+            (s, _) => format!("{}+kl", s),
+        };
+        let pos = 3 + rng.below((semi - 3) as u64 + 1) as usize;
+        toks.insert(pos, "kl".to_string());
+        out.push(toks.join(" "));
+    }
+    // `kl` as the LAST call and in the middle: whatever was configured before it stands
+    for ops in [
+        "ca:ca1 dom:bad kl", "ca:ca1 kl dom:bad", "dom:bad kl ca:ca1", "ca:ca1 dom:good kl", "ca:ca2 kl", "ca:ca1 kl", "kl ca:ca1",
+        "ca:ca1 h2:1 kl", "ca:ca1 h2:1 kl h2:0", "ca:ca1 id:c1 kl", "ca:ca1 id:c2 kl", "ca:ca1 kl id:c1", "ta:ca1 kl", "kl",
+    ] {
+        for (alpn, sops) in [("h2", "-"), ("none", "-"), ("h2", "ca:ca1+kl"), ("h2", "kl+ca:ca1+opt:1"), ("h2", "ca:ca1+opt:1+kl+opt:0")] {
+            for host in ["good", "bad"] {
+                out.push(format!("tls https {} {} ; s1good {} {} {}", host, ops, alpn, sops, rng.pick(&["tcp", "duplex", "duplex-lazy"])));
+            }
+        }
+    }
+    for ops in ["kl", "id:s1good+kl", "kl+id:s1good+ca:ca1", "id:s1good+ca:junk+kl", "kl+kl+id:nokey"] {
+        out.push(format!("srvcfg {}", ops));
+    }
+    out.push("tls https good kl ca:ca1 | https bad ^0 | https good ^0 kl dom:bad ; s1good h2 kl tcp".into());
+
+    // ---- Server-level builder calls around tls_config
+    for sops in ["-", "ca:ca1", "ca:ca1+opt:1", "ca:ca2", "opt:1+ca:ca1+opt:0"] {
+        for (before, after) in [("pre", ""), ("", "lay"), ("lay0", ""), ("pre+lay0", "lay"), ("lay0+pre", ""), ("pre", "lay+kl")] {
+            let full = [before, sops, after].iter().filter(|x| !x.is_empty() && **x != "-").cloned().collect::<Vec<_>>().join("+");
+            for client in ["https good ca:ca1", "https good ca:ca1 id:c1", "https good ca:ca1 id:c2", "https good ca:ca1 id:c1chain", "http good notls", "https good notls"] {
+                for tr in ["tcp", "duplex", "duplex-c2"] {
+                    if !thorough && tr != "tcp" && !rng.chance(1, 2) {
+                        continue;
+                    }
+                    out.push(format!("tls {} ; s1good h2 {} {}", client, full, tr));
+                }
+            }
+            out.push(format!(
+                "tls https good ca:ca1 | http good notls | https good ca:ca1 id:c1 | https good ca:ca1 id:c2 | https good ca:ca1 id:c1chain ; s1good h2 {} {}",
+                full,
+                rng.pick(&["tcp", "tcp-par", "duplex-par-x2", "duplex-lazy"])
+            ));
+        }
+    }
+
+    // ---- two requests on one connection: the second one is served like the first
+    for sops in ["-", "ca:ca1", "ca:ca1+opt:1", "ca:ca2+opt:1"] {
+        for id in ["", "id:c1", "id:c2", "id:c1chain"] {
+            for (alpn, tr) in [("h2", "tcp-c2"), ("h2", "duplex-c2"), ("h2first", "tcp-c2"), ("h2", "tcp-c2-x2"), ("h2", "duplex-lazy-c2"), ("plain", "tcp-c2")] {
+                let scheme = if alpn == "plain" { "http" } else { "https" };
+                let ops = if alpn == "plain" { "notls".to_string() } else { join_ops(&["ca:ca1".to_string(), id.to_string()]) };
+                if alpn == "plain" && !id.is_empty() {
+                    continue;
+                }
+                out.push(format!("tls {} good {} ; s1good {} {} {}", scheme, ops, alpn, sops, tr));
+            }
+        }
+    }
+
+    // ---- all the other Endpoint knobs after tls_config; balanced channels
+    for roots in ["ca:ca1", "ca:ca2", ""] {
+        for dom in ["dom:good", "dom:bad", ""] {
+            for (alpn, assume) in [("h2", "h2:0"), ("none", "h2:0"), ("none", "h2:1"), ("http11", "h2:1"), ("plain", "h2:1")] {
+                for servercert in ["s1ip", "s1good"] {
+                    let id = *rng.pick(&["", "id:c1", "id:c2"]);
+                    let sops = *rng.pick(&["-", "ca:ca1", "ca:ca1+opt:1"]);
+                    let ops: Vec<String> = [roots, dom, id, assume].iter().map(|s| s.to_string()).collect();
+                    out.push(format!("tls https ip {} ; {} {} {} tcp-native-bal", join_ops(&ops), servercert, alpn, sops));
+                    let host = if servercert == "s1ip" { "ip" } else { "good" };
+                    let tr = *rng.pick(&["tcp-kn", "duplex-lazy-kn", "duplex-kn-x2", "tcp-cto-kn"]);
+                    out.push(format!("tls https {} {} ; {} {} {} {}", host, join_ops(&ops), servercert, alpn, sops, tr));
+                    if host == "ip" {
+                        out.push(format!("tls https ip {} ; {} {} {} {}", join_ops(&ops), servercert, alpn, sops, rng.pick(&["tcp-native-kn", "tcp-native-lazy-kn", "tcp-native-bal-kn"])));
+                    }
+                }
+            }
+        }
+    }
+    for scheme in ["https", "http", "HTTPS", "https+ohttp", "http+ohttps"] {
+        for client in ["notls", "auto", "", "ca:ca1", "ca:ca1 h2:1"] {
+            for alpn in ["plain", "h2", "none"] {
+                out.push(format!("tls {} ip {} ; s1ip {} - tcp-native-bal", scheme, client, alpn).replace("  ", " "));
+                out.push(format!("tls {} good {} ; s1good {} - {}", scheme, client, alpn, rng.pick(&["tcp-kn", "duplex-lazy-kn"])).replace("  ", " "));
+            }
+        }
+    }
+    // both balance entry points in one case (even index: balance_list, odd: balance_channel)
+    for (servercert, alpn, sops) in [("s1ip", "h2", "-"), ("s1ip", "plain", "-"), ("s1ip", "none", "-"), ("s1ip", "h2", "ca:ca1"), ("s1good", "h2", "-")] {
+        for tr in ["tcp-native-bal", "tcp-native-bal-par", "tcp-native-bal-c2"] {
+            out.push(format!(
+                "tls https ip ca:ca1 | https ip ca:ca1 | https ip notls | https ip notls | https ip ca:ca1 h2:1 id:c1 | https ip auto | http ip notls | http ip notls ; {} {} {} {}",
+                servercert, alpn, sops, tr
+            ));
+        }
+    }
+    for feat in ["n", "nw"] {
+        for store in ["ca1", "ca2", "empty"] {
+            for (servercert, alpn) in [("s1ip", "h2"), ("s1ip", "none"), ("s1good", "h2"), ("s1ip", "plain")] {
+                out.push(format!("tlsf {} {} https ip auto | https ip auto | https ip roots h2:1 ; {} {} - tcp-native-bal", feat, store, servercert, alpn));
+            }
+        }
+    }
 }
